@@ -357,6 +357,8 @@ class Interp:
                 return len(args[0])
             if name in ('list', 'tuple') and len(args) == 1 and isinstance(args[0], (list, tuple)):
                 return list(args[0]) if name == 'list' else tuple(args[0])
+            if name in ('list', 'tuple', 'dict') and not args and not kwargs:
+                return {'list': [], 'tuple': (), 'dict': {}}[name]
             if name in self.externals:
                 return self.externals[name](self, args, kwargs)
             if name in self.funcs:
